@@ -3,6 +3,7 @@ package main
 import (
 	"fmt"
 	"go/types"
+	"sort"
 	"strings"
 
 	"golang.org/x/tools/go/ssa"
@@ -23,6 +24,7 @@ func runC03(c *Ctx, r *Report) {
 	c03Dial(c, r, "C03.R5", false)
 	c01R5(c, r, "C03.R6")
 	c01R3(c, r, "C03.R7")
+	c03Wrappers(c, r, "C03.R10")
 	c09R7(c, r, "C03.R9") // UDP downstream: a datagram that exactly fills the read buffer must not produce a spurious end of stream
 	c01R4(c, r, "C03.R8") // what was prefetched for matching is what the relay later replays: prefetch appends exactly what it read
 }
@@ -393,4 +395,108 @@ func c03Dial(c *Ctx, r *Report, rule string, headers bool) {
 			r.check(len(problems) == 0, rule, fnName, name, c.pos(fn.Pos()), fmt.Sprintf("%d paths", len(paths)), strings.Join(dedup(problems), "\n"))
 		}
 	}
+}
+
+// c03Wrappers: half-close must get through every connection wrapper that a handler can put in front of the socket.
+// The wrappers are found in the code: every concrete type that is stored as a Connection's Conn or handed to
+// Connection.Wrap and that embeds a net.Conn. Such a type either offers CloseWrite itself or can be looked
+// through by the proxy's half-close (it exposes NetConn() net.Conn, or the proxy package asserts on it).
+func c03Wrappers(c *Ctx, r *Report, rule string) {
+	r.rule(rule, "every connection wrapper the module installs in front of a client's socket (stored as Connection.Conn or passed to Wrap) and that embeds a net.Conn offers CloseWrite, exposes NetConn() net.Conn, or is unwrapped by type in the proxy package: the downstream half-close reaches the socket behind throttle, tee, proxy_protocol and TLS", 4)
+	type inst struct {
+		t   types.Type
+		pos string
+	}
+	seen := map[string]inst{}
+	add := func(v ssa.Value, at ssa.Instruction) {
+		mi, ok := v.(*ssa.MakeInterface)
+		if !ok {
+			return
+		}
+		t := mi.X.Type()
+		if isConnPtr(t) {
+			return
+		}
+		seen[typeStr(t)] = inst{t, c.ipos(at)}
+	}
+	for _, fn := range c.Funcs {
+		for _, b := range fn.Blocks {
+			for _, in := range b.Instrs {
+				switch x := in.(type) {
+				case *ssa.Store:
+					if _, sn, f, ok := fieldAddr(x.Addr); ok && sn == "layer4.Connection" && f == "Conn" {
+						add(x.Val, in)
+					}
+				case ssa.CallInstruction:
+					if calleeID(x) == "layer4.(*Connection).Wrap" && len(x.Common().Args) == 2 {
+						add(x.Common().Args[1], in)
+					}
+				}
+			}
+		}
+	}
+	// types the proxy package asserts on (its unwrapping helper)
+	asserted := map[string]bool{}
+	for _, fn := range c.Funcs {
+		if fn.Pkg == nil || fn.Pkg.Pkg.Path() != modPath+"/modules/l4proxy" {
+			continue
+		}
+		for _, b := range fn.Blocks {
+			for _, in := range b.Instrs {
+				if ta, ok := in.(*ssa.TypeAssert); ok {
+					asserted[typeStr(ta.AssertedType)] = true
+				}
+			}
+		}
+	}
+	var names []string
+	for k := range seen {
+		names = append(names, k)
+	}
+	sort.Strings(names)
+	netConn := netConnIface(c)
+	for _, k := range names {
+		t := seen[k].t
+		st := derefStruct(t)
+		wraps := false
+		if st != nil && netConn != nil {
+			for i := 0; i < st.NumFields(); i++ {
+				if ft := st.Field(i).Type(); types.Implements(ft, netConn) || types.Identical(ft.Underlying(), netConn) {
+					wraps = true
+				}
+			}
+		}
+		if !wraps {
+			r.ok(rule, k, "wrapper", seen[k].pos, "not a wrapper around another net.Conn")
+			continue
+		}
+		if why, ok := halfCloseExempt[k]; ok {
+			r.ok(rule, k, "wrapper", seen[k].pos, "reviewed exception: "+why)
+			continue
+		}
+		ms := types.NewMethodSet(t)
+		has := func(name string) bool { return ms.Lookup(nil, name) != nil || (ms.Lookup(pkgOf(t), name) != nil) }
+		ok := has("CloseWrite") || has("NetConn") || asserted[typeStr(t)]
+		how := "offers CloseWrite"
+		switch {
+		case has("CloseWrite"):
+		case has("NetConn"):
+			how = "exposes NetConn()"
+		case asserted[typeStr(t)]:
+			how = "unwrapped by type in the proxy package"
+		}
+		r.check(ok, rule, k, "wrapper", seen[k].pos, how, "this type is installed in front of the client's socket, embeds a net.Conn, has no CloseWrite and cannot be looked through (no NetConn(), not unwrapped by the proxy): when the upstreams have finished sending, a client behind it never observes end-of-stream and client and proxy wait for each other")
+	}
+}
+
+func pkgOf(t types.Type) *types.Package {
+	if n, ok := deref(t).(*types.Named); ok {
+		return n.Obj().Pkg()
+	}
+	return nil
+}
+
+// halfCloseExempt: wrappers that must not pass a half-close on, each with the reason.
+var halfCloseExempt = map[string]string{
+	"modules/l4tee.teeConn": "the branch of a tee shares the client's write side with the main chain, which may still be sending; only the main chain (nextConn) may half-close the client",
 }
